@@ -24,7 +24,7 @@ const db = "db0"
 var fakeNow time.Time
 
 type Event struct {
-	Kind   string  `json:"kind"` // tick tickfail alter addgroup restart
+	Kind   string  `json:"kind"`           // tick tickfail alter addgroup restart
 	Fail   int     `json:"fail,omitempty"` // tickfail: 1 = shard-duration refresh fails, 2 = index-duration refresh fails
 	Now    int64   `json:"now,omitempty"`
 	RP     int64   `json:"rp,omitempty"`
@@ -56,15 +56,15 @@ type Trace struct {
 
 // ---- world on the real code ----
 type world struct {
-	data     *meta.Data
-	eng      *engine.EngineImpl
-	unloaded map[uint64]bool // shards of the node that are on disk but not opened
-	svc      *retention.Service
-	ends     map[uint64]int64
-	rpOf     map[uint64]int64
-	deleted  []uint64 // shards deleted by the last tick
-	failShardInfo, failIndexInfo bool // fault injection for one pass
-	want     map[int64]int64 // policy durations as acknowledged to the client (successful ALTERs)
+	data                         *meta.Data
+	eng                          *engine.EngineImpl
+	unloaded                     map[uint64]bool // shards of the node that are on disk but not opened
+	svc                          *retention.Service
+	ends                         map[uint64]int64
+	rpOf                         map[uint64]int64
+	deleted                      []uint64        // shards deleted by the last tick
+	failShardInfo, failIndexInfo bool            // fault injection for one pass
+	want                         map[int64]int64 // policy durations as acknowledged to the client (successful ALTERs)
 }
 
 type metaStub struct{ w *world }
@@ -402,6 +402,9 @@ func main() {
 	switch mode {
 	case "ix":
 		runIx(n)
+		return
+	case "ixreplay":
+		runIxReplay(os.Args[2])
 		return
 	}
 	r := gen.FromEnv(14)
